@@ -142,7 +142,23 @@ pub fn gen_case(ch: &mut Choices, p: &Profile) -> SimCase {
     for _ in 0..len {
         // directed phrases: multi-step choreographies that uniform choice would almost never produce
         if p.byzantine && ch.chance(1, 5) {
-            match ch.below(6) {
+            match ch.below(7) {
+                6 => {
+                    // a partially delivered re-proposal: a block is certified but only one node learns it; the timeout certificate
+                    // forces its re-proposal, which reaches only two nodes; the view times out again with the Byzantine
+                    // validators reporting nothing, so the high votes for the one block now stem from two different views
+                    let perm = ch.perm(5);
+                    let bit = |k: usize| 1u16 << perm[k];
+                    actions.push(all(2));
+                    actions.push(Action::HideQc { voters: ch.pick(&[4u8, 4, 5, 3]), reveal: bit(0), lie: ch.pick(&[0u8, 5, 0]) });
+                    actions.push(Action::Flush { mask: u16::MAX, kinds: 0, limit: 0, rounds: 1 });
+                    actions.push(Action::Flush { mask: bit(1) | bit(2), kinds: KIND_ALL, limit: 1000, rounds: 1 });
+                    actions.push(Action::Timeout { mask: !bit(0) });
+                    actions.push(Action::CompleteTimeouts { lie: ch.pick(&[0u8, 5, 0]), reveal: u16::MAX });
+                    actions.push(all(2));
+                    actions.push(Action::Complete { reveal: u16::MAX, alt_order: ch.bool() });
+                    actions.push(all(2));
+                }
                 5 if p.crashes => {
                     // amnesia: two nodes time out before the proposal of the view reaches them, crash and restart; then the
                     // proposal arrives. Whatever they do now is collected by one node only (with the Byzantine votes on top);
